@@ -300,7 +300,7 @@ impl Check for C12 {
         "C12"
     }
     fn rule(&self) -> String {
-        "a library-client probe linked against /repo/libxcp runs driver.copy() on a thread as the documented example does; proptest generates the tree (1-2 source trees of 1-15 entries, links, files up to 140 KB), destination absent/empty/pre-populated with natural obstacles (directory where a file must go, file where a directory or link must go, differing files), driver, workers 1-16, block size 100 B..64 KiB or the library default, and the updater: a client-supplied recording StatusUpdater (mutex-ordered log), the provided ChannelUpdater drained by the documented receiver loop, or NoopUpdater. A fifth of the cases run under the ptrace supervisor with a generated schedule and optionally a fault (copy_file_range EIO, ftruncate ENOSPC/EIO, mkdir EACCES, short copy_file_range), the updater also writing one marker line per update so that the supervisor's log orders updates against data-copy calls. Oracle: sizes announced sum to the total length of the selected regular files when the copy succeeds (never more); at every prefix sum(Copied) <= sum(Size) and <= total; under the supervisor at every marker sum(Copied) <= bytes returned so far by successful data-copy calls; copy() returns and the stream ends (channel disconnects / no updater clone left); Ok without an Error update => destination complete by the reference model. Non-trivial: >=2 Copied updates from >=2 threads, or an obstacle/fault hit; distinct by case hash.".into()
+        "a library-client probe linked against /repo/libxcp runs driver.copy() on a thread as the documented example does; proptest generates the tree (1-2 source trees of 1-15 entries, links, files up to 140 KB), destination absent/empty/pre-populated with natural obstacles (directory where a file must go, file where a directory or link must go, differing files), driver, workers 1-16, block size 100 B..64 KiB or the library default, generated library options (no_clobber, fsync, no_perms, no_timestamps, backup), optional sparse files with an unaligned data tail, and the updater: a client-supplied recording StatusUpdater (mutex-ordered log), the provided ChannelUpdater drained by the documented receiver loop, or NoopUpdater. A fifth of the cases run under the ptrace supervisor with a generated schedule and optionally a fault (copy_file_range EIO, ftruncate ENOSPC/EIO, mkdir EACCES, short copy_file_range), the updater also writing one marker line per update so that the supervisor's log orders updates against data-copy calls. Oracle: sizes announced sum to the total length of the selected regular files when the copy succeeds (never more); at every prefix sum(Copied) <= sum(Size) and <= total; under the supervisor at every marker sum(Copied) <= bytes returned so far by successful data-copy calls; copy() returns and the stream ends (channel disconnects / no updater clone left); Ok without an Error update => destination complete by the reference model. Non-trivial: >=2 Copied updates from >=2 threads, or an obstacle/fault hit; distinct by case hash.".into()
     }
     fn needs(&self) -> Needs {
         Needs { xcp: false, probe: true, fallback: false }
